@@ -28,6 +28,8 @@ ASSIGN = [[Fraction(3, 2), Fraction(-2, 3), Fraction(5, 4), Fraction(7, 3), Frac
            Fraction(5, 7), Fraction(9, 5), Fraction(-7, 4), Fraction(1, 3), Fraction(8, 3), Fraction(-5, 6), Fraction(3, 7), Fraction(11, 4)],
           [Fraction(-1, 3), Fraction(5, 2), Fraction(2, 7), Fraction(-4, 5), Fraction(3, 1), Fraction(1, 6), Fraction(-2, 1), Fraction(7, 5),
            Fraction(1, 2), Fraction(-3, 2), Fraction(4, 7), Fraction(6, 5), Fraction(-1, 4), Fraction(2, 3), Fraction(5, 3), Fraction(-7, 2)]]
+# tiny magnitudes: every product of two coefficients is below 1e-12 (a non-zero coefficient stays a coefficient however small it is)
+TINY = [Fraction(k, 10 ** 7) for k in (3, -2, 5, 7, -1, 4, 6, -3, 8, 9, -7, 2, 11, -5, 13, 10)]
 # creation order vs name order: 'u1' < 'u10' < 'u11' < 'u2' < ... as strings
 NAMES = ['u2', 'u10', 'u1', 'u11', 'u3', 'u20', 'u12', 'u4', 'u30', 'u13', 'u5', 'u40', 'u14', 'u6', 'u50', 'u15']
 
@@ -54,6 +56,10 @@ def shards(tier, seed):
              main, 'bin', ('S', 2), right4, 6, ops=['gp', 'sw', 'add', 'div', 'op', 'rp', 'proj', 'cp'], clash=True)
     sh += mk('symbols named like identifiers of the generated source (x, y, A, B, a, b, x0, x1, args ..): 8 operators x subsets <=2 blades x 4 right operands x all partitions',
              main, 'un', ('S', None), ('B',), 2, ops=['reverse', 'inv', 'normsq', 'hodge', 'outerexp', 'sqrt'], clash=True)
+    sh += mk('float coefficients of magnitude 1e-7 mixed with symbols (products below 1e-12 are still coefficients): 6 operators x subsets <=2 blades x 4 right operands x all partitions',
+             spaces.cfg_pqr(1, 0, 1), 'bin', ('S', 2), right4, 4, ops=['gp', 'sw', 'proj', 'op', 'ip', 'add'], tiny=True)
+    sh += mk('float coefficients of magnitude 1e-7 mixed with symbols (products below 1e-12 are still coefficients): 6 operators x subsets <=2 blades x 4 right operands x all partitions',
+             main, 'un', ('S', None), ('B',), 1, ops=['normsq', 'reverse', 'hodge'], tiny=True)
     sh.append(dict(stratum='call history: 18 symbolic multivectors of one key pattern called one after the other (two orders)', cfg=main, kind='callhist'))
     sh.append(dict(stratum='call history: 18 symbolic multivectors of one key pattern called one after the other (two orders)', cfg=spaces.cfg_pqr(2, 0, 1), kind='callhist'))
     others = [spaces.cfg_pqr(1, 0, 1), spaces.cfg_pqr(1, 1, 0)] if tier == 'quick' else [spaces.cfg_sig(s) for s in spaces.sig(2)[1:]]
@@ -138,7 +144,8 @@ def run_shard(shard):
     alg = make_algebra(cfg)
     name = cfg_name(cfg)
     kind = shard['kind']
-    A = ASSIGN[shard.get('assign', 0)]
+    A = TINY if shard.get('tiny') else ASSIGN[shard.get('assign', 0)]
+    tiny = bool(shard.get('tiny'))
     ops = shard.get('ops') or (UNARY if kind == 'un' else BINARY)
     head = f"from fractions import Fraction\nimport sympy\nfrom kingdon import Algebra\nalg = {cfg_repro(cfg)}\n"
     for ka, kb in binprog.pairs(shard if kind == 'bin' else {**shard, 'diag': True}, alg):
@@ -161,8 +168,8 @@ def run_shard(shard):
                             vs.append(sympy.Symbol(nm))
                         syms[nm] = v
                     else:
-                        vs.append(v)
-                    vn.append(v)
+                        vs.append(float(v) if tiny else v)
+                    vn.append(float(v) if tiny else v)
                     pos += 1
                 ops_s.append(alg.multivector(keys=tuple(ks), values=vs))
                 ops_n.append(nmv(alg, ks, vn))
@@ -200,9 +207,18 @@ def run_shard(shard):
                 extra = set(s.name for s in free) - set(syms)
                 if extra:
                     res.violate(violation(key + ':foreign-symbols', f'{name} {op}: result has free symbols {sorted(extra)} not present in the operands', case, sorted(syms), sorted(extra), repro))
+                scale = max([abs(complex(v)) for v in want.values()] + [0.0]) if tiny else None
                 for how, got in ev.items():
                     bad = []
                     for kk in set(got) | set(want):
+                        if tiny:
+                            # floats of tiny magnitude: tolerance relative to the largest coefficient of the result, no absolute floor
+                            try:
+                                if abs(complex(got.get(kk, 0)) - complex(want.get(kk, 0))) > 1e-9 * scale:
+                                    bad.append(kk)
+                            except Exception:
+                                bad.append(kk)
+                            continue
                         g = got.get(kk, 0)
                         if hasattr(g, 'evalf') and not isinstance(g, (int, float, Fraction)):
                             try:
